@@ -109,12 +109,16 @@ func heightTok(d db.KeyValueReader) string {
 // ---- running the real migration with interruptions ----------------------------------------
 
 type btPlan struct {
-	Inflate     bool  `json:"inflate"`           // batches report >= 96 MB as soon as non-empty
-	PreCancel   bool  `json:"preCancel"`         // context cancelled before Migrate is called
-	CancelAtCmt int   `json:"cancelAtCmt"`       // cancel right after this commit (0 = never)
-	CancelAtGet int64 `json:"cancelAtGet"`       // cancel at this database read (0 = never)
-	FailAt      int   `json:"failAt,omitempty"`  // this commit attempt fails (0 = never)
-	FailAll     bool  `json:"failAll,omitempty"` // … and every later one
+	Inflate     bool  `json:"inflate"`              // batches report >= 96 MB as soon as non-empty
+	PreCancel   bool  `json:"preCancel"`            // context cancelled before Migrate is called
+	CancelAtCmt int   `json:"cancelAtCmt"`          // cancel right after this commit (0 = never)
+	CancelAtGet int64 `json:"cancelAtGet"`          // cancel at this database read (0 = never)
+	FailAt      int   `json:"failAt,omitempty"`     // this commit attempt fails (0 = never)
+	FailAll     bool  `json:"failAll,omitempty"`    // … and every later one
+	FailGetAt   int64 `json:"failGetAt,omitempty"`  // this Get/Has fails (0 = never)
+	FailGetAll  bool  `json:"failGetAll,omitempty"` // … and every later one
+	FailIterAt  int64 `json:"failIterAt,omitempty"` // this NewIterator fails
+	FailIterAll bool  `json:"failIterAll,omitempty"`
 }
 
 // hungOnce: a migration run did not return; its goroutines may still spin, so no further runs
@@ -128,6 +132,8 @@ type btOutcome struct {
 	final        *memory.Database
 	commits      int
 	failedWrites int
+	failedReads  int64
+	gets, iters  int64
 	state        []byte // the state Migrate returned
 	ctxErr       bool   // the returned error wraps context.Canceled
 }
@@ -162,6 +168,7 @@ func runMigrator(m migration.Migration, state []byte, d *memory.Database, p btPl
 		s.inflate = 96 * 1024 * 1024
 	}
 	s.failAt, s.failAll = p.FailAt, p.FailAll
+	s.getFailAt, s.getFailAll, s.iterFailAt, s.iterFailAll = p.FailGetAt, p.FailGetAll, p.FailIterAt, p.FailIterAll
 	ctx, cancel := context.WithCancel(context.Background())
 	defer cancel()
 	var out btOutcome
@@ -224,6 +231,8 @@ func runMigrator(m migration.Migration, state []byte, d *memory.Database, p btPl
 	s.mu.Lock()
 	out.commits = s.commits
 	out.failedWrites = s.failed
+	out.failedReads = s.readsFailed.Load()
+	out.gets, out.iters = s.reads.Load(), s.iters.Load()
 	s.hook = nil
 	s.mu.Unlock()
 	out.final = work
@@ -413,4 +422,65 @@ func specOfImage(c chainSpec, img *memory.Database) chainSpec {
 	out := c
 	out.Layout = layoutOf(img, c.height())
 	return out
+}
+
+// ingestErrorTransition: Migrate returned an error after an injected read fault. The image must be
+// what the model's `ingestError` step gives: complete ranges committed or not, at most one range
+// with only the new entries of its first k blocks and all its old entries still there.
+func (m *btModel) ingestErrorTransition(c chainSpec, pre, post *memory.Database, replay any) {
+	a0 := abstractImage(pre, c)
+	a1 := abstractImage(post, c)
+	ht := heightTok(pre)
+	m.ask("bt.set " + ht + " " + strings.Join(a0, " "))
+	first := m.ask("bt.first")
+	m.res.Compared(1)
+	f, err := strconv.Atoi(first)
+	if err != nil { // nothing to migrate / refused before any pass: nothing may have changed
+		if strings.Join(a0, " ") != strings.Join(a1, " ") {
+			m.res.Mismatch(lib.Mismatch{Sig: "blocktx-read-error-image-not-allowed-by-model", Input: replay, Model: "unchanged", Impl: a1})
+		}
+		return
+	}
+	h := len(c.Counts) - 1
+	nr := (h-f)/btBatch + 1
+	bits := make([]byte, nr)
+	var partials []string
+	for i := range bits {
+		bits[i] = '0'
+		changed, oldLeft, k := false, false, 0
+		for b := f + i*btBatch; b <= h && b < f+(i+1)*btBatch; b++ {
+			if a0[b] != a1[b] {
+				changed = true
+				k = b - (f + i*btBatch) + 1 // the partial batch holds the new entries of blocks 0..k-1 of the range
+			}
+			if f1 := strings.Split(a1[b], ":"); f1[1] != "-" || f1[2] != "-" {
+				oldLeft = true // the range's old entries were not deleted
+			}
+		}
+		partial := changed && oldLeft
+		switch {
+		case partial:
+			partials = append(partials, fmt.Sprintf("%d.%d", i, k))
+		case changed:
+			bits[i] = '1'
+		}
+	}
+	ps := "-"
+	if len(partials) > 0 {
+		ps = strings.Join(partials, ",")
+	}
+	pk := len(partials)
+	tok := fmt.Sprintf("E*:%s:%s", string(bits), ps)
+	ans := m.ask("bt.migrate " + tok)
+	parts := strings.SplitN(ans, " ", 2)
+	want := strings.Join(a1, " ")
+	if len(parts) != 2 || parts[0] != "failed" || parts[1] != want {
+		m.res.Mismatch(lib.Mismatch{Sig: "blocktx-read-error-image-not-allowed-by-model", Input: map[string]any{"case": replay, "step": tok, "pre": a0},
+			Model: ans, Impl: "failed " + want})
+		return
+	}
+	m.res.Hit("bt-ingest-error-step-agrees-with-model")
+	if pk > 0 {
+		m.res.Hit("bt-ingest-error:partial-batch-written")
+	}
 }
